@@ -421,15 +421,21 @@ Section Parse.
       log_out r (match e with EFlags ErrHelp _ => true | _ => false end) (err_text e ++ [10])
     else r.
 
-  (* everything after `fillParseState` *)
-  Definition parse_body (args : list str) (r : rt) : res (rt * presult) :=
-    let s0 := fill_parse_state {| ps_arg := []; ps_args := args; ps_ret := []; ps_pos := []; ps_err := None;
-                                  ps_cmd := []; ps_lk := {| lk_short := []; lk_long := []; lk_cmds := [] |} |} [] in
-    ' (s, r) <- run_loop (S (length args)) s0 r ;;
-    ' (s, r) <- (match ps_err s with
-                 | None => ' (s1, r1) <- clear_defaults (tree_octxs root) s r ;; Ok (check_required s1 r1, r1)
-                 | Some _ => Ok (s, r)
-                 end) ;;
+  Definition initial_pst (args : list str) : pst :=
+    fill_parse_state {| ps_arg := []; ps_args := args; ps_ret := []; ps_pos := []; ps_err := None;
+                        ps_cmd := []; ps_lk := {| lk_short := []; lk_long := []; lk_cmds := [] |} |} [].
+
+  (* the argument loop, then (if no error so far) defaults for every option of the
+     tree and the required check *)
+  Definition parse_core (args : list str) (r : rt) : res (pst * rt) :=
+    ' (s, r) <- run_loop (S (length args)) (initial_pst args) r ;;
+    match ps_err s with
+    | None => ' (s1, r1) <- clear_defaults (tree_octxs root) s r ;; Ok (check_required s1 r1, r1)
+    | Some _ => Ok (s, r)
+    end.
+
+  (* error / missing-command diagnosis / dispatch, and the returned values *)
+  Definition parse_finish (s : pst) (r : rt) : rt * presult :=
     let c := cur_cmd s in
     let '(r, reterr) :=
         match ps_err s with
@@ -450,7 +456,11 @@ Section Parse.
                      | EFlags ErrHelp _ => ps_args s
                      | _ => ps_arg s :: ps_args s
                      end in
-      Ok (print_error r e, {| pr_ret := Some retargs; pr_err := Some e |})
-    | None => Ok (r, {| pr_ret := Some (ps_ret s); pr_err := None |})
+      (print_error r e, {| pr_ret := Some retargs; pr_err := Some e |})
+    | None => (r, {| pr_ret := Some (ps_ret s); pr_err := None |})
     end.
+
+  (* everything after `fillParseState` *)
+  Definition parse_body (args : list str) (r : rt) : res (rt * presult) :=
+    ' (s, r) <- parse_core args r ;; Ok (parse_finish s r).
 End Parse.
